@@ -2,7 +2,6 @@ package main
 
 import (
 	"bufio"
-	"encoding/hex"
 	"fmt"
 	"strings"
 )
@@ -159,7 +158,7 @@ func generate(family string, n int, seed uint64, out *bufio.Writer) {
 			if r.chance(1, 15) {
 				dk = decKinds[r.intn(len(decKinds))] // offer to another decoder
 			}
-			p("dec %s %s", dk, hex.EncodeToString(b))
+			p("dec %s %s", dk, hexs(b))
 		}
 	case "dechdr":
 		for i := 0; i < n; i++ {
@@ -174,14 +173,14 @@ func generate(family string, n int, seed uint64, out *bufio.Writer) {
 				if r.chance(1, 4) {
 					mutateTree(r, w)
 				}
-				p("dec ph %s", hex.EncodeToString(w.enc()))
+				p("dec ph %s", hexs(w.enc()))
 			} else {
 				w := entriesWire(h.unprot)
 				w.randomize(r, 30)
 				if r.chance(1, 4) {
 					mutateTree(r, w)
 				}
-				p("dec uh %s", hex.EncodeToString(w.enc()))
+				p("dec uh %s", hexs(w.enc()))
 			}
 		}
 	case "v1":
@@ -205,7 +204,7 @@ func generate(family string, n int, seed uint64, out *bufio.Writer) {
 			} else {
 				v = verifierFor(m, r)
 			}
-			p("v1 %s %s %s %s -%s", tag, hex.EncodeToString(b), ext, v, sfx)
+			p("v1 %s %s %s %s -%s", tag, hexs(b), ext, v, sfx)
 		}
 	case "vm":
 		for i := 0; i < n; i++ {
@@ -217,7 +216,7 @@ func generate(family string, n int, seed uint64, out *bufio.Writer) {
 			if stream != "valid" && r.chance(1, 4) && len(vs) > 0 {
 				vs = vs[1:]
 			}
-			p("vm %s %s [%s] -", hex.EncodeToString(b), m.ext, strings.Join(vs, ","))
+			p("vm %s %s [%s] -", hexs(b), m.ext, strings.Join(vs, ","))
 		}
 	case "reenc":
 		for i := 0; i < n; i++ {
@@ -235,7 +234,7 @@ func generate(family string, n int, seed uint64, out *bufio.Writer) {
 			if r.chance(1, 2) {
 				mode = "clear"
 			}
-			p("reenc %s %s %s %d", kind, hex.EncodeToString(top.enc()), mode, 1+r.intn(3))
+			p("reenc %s %s %s %d", kind, hexs(top.enc()), mode, 1+r.intn(3))
 		}
 	case "hist":
 		for i := 0; i < n; i++ {
@@ -250,17 +249,17 @@ func generate(family string, n int, seed uint64, out *bufio.Writer) {
 					if r.chance(1, 3) {
 						mutateTree(r, w)
 					}
-					steps = append(steps, hex.EncodeToString(w.enc()))
+					steps = append(steps, hexs(w.enc()))
 				case "uh":
 					h := randHeaders(r, wcfg)
 					w := entriesWire(h.unprot)
 					if r.chance(1, 3) {
 						mutateTree(r, w)
 					}
-					steps = append(steps, hex.EncodeToString(w.enc()))
+					steps = append(steps, hexs(w.enc()))
 				default:
 					b, _, _ := streamBytes(r, wcfg, kind)
-					steps = append(steps, hex.EncodeToString(b))
+					steps = append(steps, hexs(b))
 				}
 			}
 			p("hist %s %s", kind, strings.Join(steps, ","))
@@ -269,7 +268,7 @@ func generate(family string, n int, seed uint64, out *bufio.Writer) {
 		for i := 0; i < n; i++ {
 			kind := decKinds[r.intn(len(decKinds))]
 			b, _, _ := streamBytes(r, wcfg, kind)
-			p("use %s %s", kind, hex.EncodeToString(b))
+			p("use %s %s", kind, hexs(b))
 		}
 	case "enc":
 		for i := 0; i < n; i++ {
@@ -302,7 +301,10 @@ func optHex(b []byte) string {
 	if b == nil {
 		return "-"
 	}
-	return hex.EncodeToString(b)
+	if len(b) == 0 {
+		return "_"
+	}
+	return hexs(b)
 }
 
 func hdrsGo(r *rng, c *genCfg) (hdrSpec, string) {
@@ -453,7 +455,7 @@ func genCSOp(r *rng, c, wc *genCfg, p func(string, ...any)) {
 		if r.chance(1, 12) {
 			mutateTree(r, top)
 		}
-		src = "hex:" + hex.EncodeToString(top.enc())
+		src = "hex:" + hexs(top.enc())
 	} else {
 		h := randHeaders(r, &cc)
 		payload := optHex(randPayload(r, false))
@@ -534,15 +536,15 @@ func genHEOp(r *rng, c, wc *genCfg, p func(string, ...any)) {
 		if r.chance(1, 15) {
 			mutateTree(r, top)
 		}
-		p("hev %s T:-7:1", hex.EncodeToString(top.enc()))
+		p("hev %s T:-7:1", hexs(top.enc()))
 		return
 	}
 	h := randHeaders(r, &cc)
 	htext := h.gotext()
 	if r.chance(1, 10) {
 		// caller-supplied raw buckets
-		rawP := hex.EncodeToString(wBstr(entriesWire([]hentry{{hInt(1), hInt(-7)}}).enc()).enc())
-		rawU := hex.EncodeToString(entriesWire([]hentry{{hInt(int64(r.pick([]int{4, 258, 259, 260, 3}))), hBytes([]byte{1})}}).enc())
+		rawP := hexs(wBstr(entriesWire([]hentry{{hInt(1), hInt(-7)}}).enc()).enc())
+		rawU := hexs(entriesWire([]hentry{{hInt(int64(r.pick([]int{4, 258, 259, 260, 3}))), hBytes([]byte{1})}}).enc())
 		switch r.intn(3) {
 		case 0:
 			htext = "H(" + rawP + ";" + entriesGo(h.prot) + ";-;" + entriesGo(h.unprot) + ")"
@@ -566,13 +568,13 @@ func genHEOp(r *rng, c, wc *genCfg, p func(string, ...any)) {
 	case 0:
 		pct = "i64:50"
 	case 1:
-		pct = "s:" + hex.EncodeToString([]byte("a/b"))
+		pct = "s:" + hexs([]byte("a/b"))
 	case 2:
 		pct = r.pick2s([]string{"b:01", "i64:-1", "u8:7", "t", "s:"})
 	}
 	loc := "-"
 	if r.chance(1, 3) {
-		loc = hex.EncodeToString([]byte("https://example.com/x"))
+		loc = hexs([]byte("https://example.com/x"))
 	}
 	s, v := signerSpec(r, signAlg(r, &h))
 	p("he %s %d %s %s %s %s %s", htext, hashAlg, hv_, pct, loc, s, v)
